@@ -325,7 +325,14 @@ class C08(Prop):
             "dumps as modelled; non-trivial = distinct content with >= 2 orders")
     assumptions = ["CPython dict/set iteration order is a function of insertion history and hash seed (covered in the theorems by quantifying "
                    "over all rearrangements)", "json.load is the inverse of the modelled printer (layout oracle)"]
-    partial = {}
+    partial = {"C08_perm_treeinfo_partial": "proved: the INI bytes are a function of the written document modulo section/option order "
+               "(C08_ini_canonical) and every comma list the writer builds is order-independent (C08_treeinfo_platforms / _variants_list "
+               "/ _addons); missing: that TI.serialize of two rearranged trees yields IniEq documents and that success transfers "
+               "(section-by-section analysis of serializeInto) - covered by correspondence on every rearranged order only",
+               "C08_perm_manifests": "stated on the stored mapping (JEq payloads); that two add-call histories differing in the order of "
+               "non-colliding calls build JEq mappings is checked by correspondence (C12 model), not proved",
+               "C08_perm_composeinfo": "bytes of successful dumps; C08_repeat for composeinfo (header.version, release.is_layered of layered "
+               "variants are set by a dump) is checked by the oracle on the object state, not proved"}
 
     def __init__(self):
         self.workers = Workers()
@@ -575,7 +582,7 @@ class C08(Prop):
         quantifier ("images with distinct paths per cell"); recorded in the evidence, never a failure."""
         rng = random.Random("c08-ties-%s" % ctx["seed"])
         t = FIM.tables()
-        differing = 0
+        differing = per_process = 0
         trials = 6 if ctx["tier"] != "thorough" else 30
         for i in range(trials):
             pool = []
@@ -591,8 +598,14 @@ class C08(Prop):
             r = self.real(case)
             if len(set(row[-1] for row in r["table"])) > 1:
                 differing += 1
+            by_order = {}
+            for row in r["table"]:
+                by_order.setdefault(row[1], set()).add(row[-1])
+            if any(len(v) > 1 for v in by_order.values()):
+                per_process += 1
         ctx["dist"]["equal-path probe: manifests tried"] = trials
         ctx["dist"]["equal-path probe: manifests whose bytes depended on the order"] = differing
+        ctx["dist"]["equal-path probe: ... on the process alone (same construction order)"] = per_process
 
 
 def _excerpt(a, b, width=160):
